@@ -245,6 +245,24 @@ theorem sound_solid (tol : Tol ℝ) (acc : Xform ℝ) (interior : Region ℝ)
         subst ho
         exact sound_neg tol acc _ q (ha _ w rfl)
 
+/-- ★ `PolyCone::or_solid` / `PolyPrism::or_solid` with one segment [zlo, zhi]: the object contains
+    p iff the centred solid contains p shifted down by (zhi + zlo)/2 — for zlo + zhi of either sign
+    and for zlo + zhi = 0 (the model wraps the solid in a z-translation exactly when dz ≠ 0, as the
+    code does) -/
+theorem polysolid_single_segment_shift (zlo zhi : ℝ) (mk : ℝ → Region ℝ)
+    (mkInner : Option (ℝ → Region ℝ)) (angle : Option (Sense × Region ℝ)) (p : Vec3 ℝ) :
+    (Obj.polySingle zlo zhi mk mkInner angle).mem p
+      = (Obj.solid (mk ((zhi - zlo) / 2)) (mkInner.map fun f => f ((zhi - zlo) / 2)) angle).mem
+          ⟨p.x, p.y, p.z - (zhi + zlo) / 2⟩ :=
+  polySingle_mem zlo zhi mk mkInner angle p
+
+/-- a segment of a multi-segment polycone / polyprism (`construct_segments`) is the centred region
+    shifted up by the segment's mid-height -/
+theorem polysolid_segment_shift (zlo zhi : ℝ) (mk : ℝ → Region ℝ) (p : Vec3 ℝ) :
+    (Obj.polySegment zlo zhi mk none).mem p
+      = (mk ((zhi - zlo) / 2)).mem ⟨p.x, p.y, p.z - (zlo + zhi) / 2⟩ :=
+  polySegment_mem zlo zhi mk p
+
 /-! ### bounding boxes promised by the builds -/
 
 /-- ellipsoid: reported interior ⊆ solid ⊆ reported exterior -/
@@ -292,6 +310,18 @@ theorem genprism_planar_face_partial (v a p : Vec3 ℝ) (hv : 0 < v.x * v.x + v.
       (Surface.plane (makeUnit v) (Vec3.dot (makeUnit v) a)).quadric p
         = s * (v.x * (p.x - a.x) + v.y * (p.y - a.y) + v.z * (p.z - a.z)) :=
   plane_through_unit v a p hv
+
+/-- ★ GenPrism / GenTrap twisted side faces: the emitted general quadric is exactly minus the
+    orientation determinant of p against the edge i → j of the cross-section at height p.z (end
+    points interpolated linearly between the −hz and +hz polygons), i.e. the ruled surface; its
+    inside sense is "left of the edge" as in the SPEC `inGenPrism` -/
+theorem genprism_twisted_face (hz : ℝ) (hhz : 0 < hz) (li lj hi_ hj : P2 ℝ) (p : Vec3 ℝ) :
+    (twistedFace hz li lj hi_ hj).quadric p
+      = -(((lj.1 + (hj.1 - lj.1) * ((p.z + hz) / (2 * hz))) - (li.1 + (hi_.1 - li.1) * ((p.z + hz) / (2 * hz))))
+            * (p.y - (li.2 + (hi_.2 - li.2) * ((p.z + hz) / (2 * hz))))
+          - ((lj.2 + (hj.2 - lj.2) * ((p.z + hz) / (2 * hz))) - (li.2 + (hi_.2 - li.2) * ((p.z + hz) / (2 * hz))))
+            * (p.x - (li.1 + (hi_.1 - li.1) * ((p.z + hz) / (2 * hz))))) :=
+  twistedFace_quadric hz hhz li lj hi_ hj p
 
 /-! ### link to the bounding-zone algebra of Props/C09 (coordinates ℝ ∪ {±∞} = `WithBot (WithTop ℝ)`) -/
 
